@@ -299,8 +299,10 @@ class ImportanceK(Generic[R], SMCAlgorithm[R]):
         key, sub_key = jrandom.split(key)
         sub_keys = jrandom.split(sub_key, self.get_num_particles())
         if self.q is not None:
+            # the proposal and the target's internal proposal must not share keys
+            q_keys = jrandom.split(key, self.get_num_particles())
             log_weights, choices = vmap(self.q.random_weighted, in_axes=(0, None))(
-                sub_keys, self.target
+                q_keys, self.target
             )
             trs, target_scores = vmap(self.target.importance)(sub_keys, choices)
         else:
